@@ -16,6 +16,7 @@ SPACES = {
     "dm": ([53, 65, 200, 181, 48], [((), 5, 7, None), ((65,) * 20, 3, 4, None)]),     # 181 = 0xB5: a byte above 127 whose low seven bits are a digit
     "qr": ([49, 57, 65, 58, 97, 43, 32, 200], [((), 3, 4, None), ((57,) * 30, 2, 3, None), ((65,) * 21, 2, 3, None),
                                                    # runs that cross the version-1 capacity at level H in each mode (17 digits / 10 alphanumeric / 7 bytes) and at level L (41 / 25 / 17)
+                                                   ((49, 49, 49), 2, 3, None), ((49,) * 6, 2, 2, None),      # a non-digit on a three-digit group boundary
                                                    ((49,) * 15, 2, 3, None), ((65,) * 8, 2, 3, None), ((97,) * 5, 2, 3, None),
                                                    ((49,) * 39, 2, 3, None), ((65,) * 23, 2, 3, None), ((97,) * 15, 2, 3, None)]),   # each string x 4 levels x 4 API modes
     "c128": ([49, 55, 241, 242, 65, 97, 1, 200], [((), 5, 6, None)]),
